@@ -62,6 +62,8 @@ def run(rep, work, rng, tier):
     sel = lambda ln: ln.split(' ', 1)[0] in ('save', 'fsum', 'load', 'snap')
     (c, _), (m, _), nd = common.correspondence(rep, work, cases, select=sel, label='generations 2 and 3 (bytes) and reloaded object', shared=shared)
     bad = 0; compared = 0; comps = {}
+    # C04_decided evaluated on the generation-1 object (loaded from any layout) and on the generation-2 object
+    appl = common.theorem_applicability(work, cases, shared=shared); th = dict(gen1_objects=0, gen1_hypotheses_hold=0, gen2_objects=0, gen2_hypotheses_hold=0, confirmed_by_the_implementation=0)
     for cid, lines in cases:
         cl, cs = c.get(cid, ([], 'missing'))
         ops = harness.split_ops(lines, cl)
@@ -80,8 +82,16 @@ def run(rep, work, rng, tier):
                 comps[d.split(' ')[0].split('[')[0]] = comps.get(d.split(' ')[0].split('[')[0], 0) + 1
                 if rep.violation('oracle', 'generation 2 does not hold the content of generation 1: %s' % d, script=script, signature=None): bad += 1
         sums = [out[0] for ln, out in ops if ln.startswith('fsum') and out]
+        fl = appl.get(cid) or []
+        for k, name in ((0, 'gen1'), (1, 'gen2')):
+            if k < len(fl) and fl[k] is not None and k + 1 < len(sums):
+                th[name + '_objects'] += 1
+                if fl[k][1]:
+                    th[name + '_hypotheses_hold'] += 1
+                    if sums[k] == sums[k + 1]: th['confirmed_by_the_implementation'] += 1
+                    elif rep.violation('oracle', 'the object of generation %d meets the hypotheses of C04_decided (its file reloads to an object that saves to the same bytes) but the implementation wrote %s then %s' % (k + 1, sums[k], sums[k + 1]), script=script, signature=None): bad += 1
         if len(sums) >= 2 and len(set(sums[1:])) != 1:
             if rep.violation('oracle', 'saving again is not byte-identical: %s' % sums, script=script, signature=None): bad += 1
     rep.coverage.update(dict(evaluations=len(cases), distinct_nontrivial=compared,
         rule='every well-formed file of the C02 generator (all layout variants and content shapes) and the vendor files: load, save, reload, compare the named content of generations 1 and 2 (group ids kept, placeholders ignored, header events / gap / reserved words included), save generations 3 and 4 and compare the bytes of generations 2, 3, 4',
-        samples=[cases[0][1]], failing_components=comps, disagreements=nd, oracle_failures=bad))
+        samples=[cases[0][1]], failing_components=comps, disagreements=nd, oracle_failures=bad, theorem_C04_decided=th, gen1_excluded_by=common.failing_hypotheses(appl, 0), gen2_excluded_by=common.failing_hypotheses(appl, 1)))
